@@ -436,6 +436,16 @@ func writeEvidence(o *Options, res *runResult, violations []violation, knownHit,
 		"wall_s": wall.Seconds(), "violations": len(violations),
 	}
 	b, _ := json.MarshalIndent(ev, "", " ")
-	os.MkdirAll(filepath.Join(o.Verif, "evidence"), 0o755)
-	os.WriteFile(filepath.Join(o.Verif, "evidence", o.Prop+".json"), b, 0o644)
+	os.MkdirAll(evidenceDir(o), 0o755)
+	os.WriteFile(filepath.Join(evidenceDir(o), o.Prop+".json"), b, 0o644)
+}
+
+// evidenceDir: /verif/evidence, or GOVC_EVIDENCE_DIR for runs against deliberately
+// changed trees (self-test mutants, seeded changes) that must not overwrite the
+// evidence of the unchanged tree.
+func evidenceDir(o *Options) string {
+	if d := os.Getenv("GOVC_EVIDENCE_DIR"); d != "" {
+		return d
+	}
+	return filepath.Join(o.Verif, "evidence")
 }
